@@ -29,6 +29,7 @@ REGISTRY = {
     "C11": ("harness.p_c11", 60, 600),
     "C02": ("harness.p_c02", 40, 400),
     "C03": ("harness.p_c03", 40, 400),
+    "C26": ("harness.p_c26", 60, 300),
     "C12": ("harness.p_solvers", 60, 600),
     "C13": ("harness.p_solvers", 60, 600),
     "C14": ("harness.p_solvers", 60, 600),
